@@ -483,3 +483,84 @@ pub fn gen_c17(seed: u64, _index: u64) -> KPlan {
     }
     KPlan { seed, time_base_ms: time_base(&mut r), n_links, cfg, events }
 }
+
+/// C02: direct accounting histories with explicit sequence numbers.
+pub fn gen_c02(seed: u64, _index: u64) -> KPlan {
+    let mut r = Rng::new(seed ^ 0xC02);
+    let n_links = r.range(1, 4) as usize;
+    let cfg = gen_cfg(&mut r);
+    let mut events = Vec::new();
+    for l in 0..n_links {
+        events.push(KEv::Reg3 { link: l });
+    }
+    // a window of the 31-bit space that does not wrap
+    let base: i64 = match r.below(4) {
+        0 => 0,
+        1 => r.range(0, 1 << 20) as i64,
+        2 => (1i64 << 31) - 400_000,
+        _ => r.range(0, (1u64 << 31) - 400_000) as i64,
+    };
+    let mut head: i64 = 0; // next fresh offset
+    let mut acked: i64 = -1;
+    let len = r.range(20, 200);
+    for _ in 0..len {
+        let link = r.below(n_links as u64) as usize;
+        let near = |r: &mut Rng, head: i64| -> i64 {
+            match r.below(5) {
+                0 => r.range(0, (head + 1) as u64) as i64,
+                1 => (head - r.range(0, 70) as i64).max(0),
+                _ => (head - r.range(0, 12) as i64).max(0),
+            }
+        };
+        match r.below(12) {
+            0..=3 => {
+                // fresh packets, sometimes with strides and jumps
+                for _ in 0..r.range(1, 20) {
+                    events.push(KEv::Register { link: r.below(n_links as u64) as usize, seq: (base + head) as i32 });
+                    head += match r.below(20) {
+                        0 => r.range(2, 70) as i64,
+                        1 => r.range(70, 3000) as i64,
+                        _ => 1,
+                    };
+                }
+            }
+            4 => {
+                // retransmission of an old number (possibly already passed by the cumulative ACK), maybe on another link
+                let off = near(&mut r, head);
+                events.push(KEv::Register { link, seq: (base + off) as i32 });
+            }
+            5 | 6 => {
+                // cumulative ACK: in order, duplicate, stale, or far ahead
+                let off = match r.below(6) {
+                    0 => acked,
+                    1 => (acked - r.range(1, 100) as i64).max(-1),
+                    2 => head + r.range(0, 200) as i64,
+                    3 => (acked + r.range(65, 400) as i64).min(head + 10),
+                    _ => (acked + r.range(1, 64) as i64).min(head),
+                };
+                if off >= 0 {
+                    events.push(KEv::CumAckSeq { seq: (base + off) as i32 });
+                    acked = acked.max(off);
+                }
+            }
+            7 | 8 => {
+                let off = near(&mut r, head);
+                events.push(KEv::SrtlaAckSeq { link, seq: (base + off) as i32 });
+            }
+            9 => {
+                let off = near(&mut r, head);
+                events.push(KEv::NakSeq { link, seq: (base + off) as i32 });
+                if r.chance(0.3) {
+                    events.push(KEv::NakSeq { link, seq: (base + off) as i32 });
+                }
+            }
+            10 => events.push(match r.below(3) {
+                0 => KEv::MarkForRecovery { link },
+                1 => KEv::Reconnect { link },
+                _ => KEv::Reg3 { link },
+            }),
+            _ => events.push(adv(&mut r)),
+        }
+    }
+    KPlan { seed, time_base_ms: time_base(&mut r), n_links, cfg, events }
+}
